@@ -319,7 +319,62 @@ func c05twoBody() {
 	sched.SetOutcome("ok")
 }
 
+// C05 (S) pacing: a steady stream whose chunks are closer together than the idle timeout but which lasts
+// longer than the idle timeout must be relayed completely (the virtual clock advances between chunks).
+func c05pacedBody() {
+	gapDiv := []int{5, 3, 2}[sched.Choose(sched.ClsInput, 3, "gap")]
+	dir := sched.Choose(sched.ClsInput, 2, "direction")
+	backendAddr := "10.1.0.1:80"
+	ln, _ := vnet.Listen("tcp", backendAddr)
+	cfg := vfTCPConfig(service.LoadBalancePolicy_ROUND_ROBIN, 0)
+	cfg.IdleTimeout = vfDur(time.Second)
+	p := vfTCPProc(cfg, host.New(backendAddr))
+	client, proxySide := vnet.Pipe()
+	client.Label, proxySide.Label = "client", "proxy-downstream"
+	sched.GoNamed("HandleConn", func() { p.HandleConn(proxySide); proxySide.Close() })
+	var backend *vnet.VConn
+	var got bytes.Buffer
+	sched.GoNamed("acceptor", func() {
+		c, err := ln.Accept()
+		if err == nil {
+			backend = c.(*vnet.VConn)
+		}
+	})
+	sched.WaitQuiescent()
+	if backend == nil {
+		sched.Fail("harness-no-backend-connection", "")
+	}
+	src, dst := client, backend
+	if dir == 1 {
+		src, dst = backend, client
+	}
+	sched.GoNamed("reader", func() { io.Copy(&got, dst) })
+	var sent []byte
+	chunks := 3 * gapDiv // lasts three idle timeouts
+	for i := 0; i < chunks; i++ {
+		ch := pattern(10, byte(i))
+		sent = append(sent, ch...)
+		if _, err := src.Write(ch); err != nil {
+			break
+		}
+		sched.WaitQuiescent()
+		sched.AdvanceTime(int64(time.Second) / int64(gapDiv))
+		sched.WaitQuiescent()
+	}
+	if !bytes.Equal(got.Bytes(), sent) {
+		sched.Fail("bytes-dropped-at-end / steady stream longer than the idle timeout", fmt.Sprintf("chunks every 1/%d of the idle timeout: %d of %d bytes arrived", gapDiv, got.Len(), len(sent)))
+	}
+	sched.SetOutcome(fmt.Sprintf("gap=1/%d dir=%d", gapDiv, dir))
+}
+
 func init() {
+	sched.Register(&sched.Scenario{Name: "C05/paced", Setup: func(tier string) (sched.Config, func()) {
+		b := sched.Bounds{F: 1}
+		if tier == "thorough" {
+			b = sched.Bounds{P: 1, F: 1}
+		}
+		return sched.Config{Bounds: b, Iterative: true, MaxSteps: 200000}, c05pacedBody
+	}})
 	sched.Register(&sched.Scenario{Name: "C05/relay", Setup: func(tier string) (sched.Config, func()) {
 		b := sched.Bounds{P: 1, F: 1}
 		if tier == "thorough" {
